@@ -44,6 +44,10 @@ def run(chk):
                        "opt_einsum semantics of named indices"]
     TR.builder_columns(chk, src)
     terminal_cover_rule(chk, src)
+    chk.rule("tree-builder-exact", "construct_symbolic_ttno as a whole (graph decompositions) on seven small trees (chain, root in the middle, binary, ternary with a two-set node, dummy inner node, "
+             "dummy root, two-set root) x exact term tables: the root's single operator, expanded over the tree, is the term table with its coefficients - the same operator on every topology", 40)
+    from . import decompose_rules as DR
+    DR.tree_builder_rule(chk, src, "tree-builder-exact")
     TR.ttno_layout(chk, src)
     TR.label_schema(chk, src, which=("O",))
     TR.state_networks(chk, src, which=("todense_o",), floor=3)
